@@ -48,12 +48,8 @@ mutual
       | float =>
         simp only [valueOk] at h
         exact (tokText_number .float raw (Or.inr rfl) h).lexTo
-      | string =>
-        simp only [valueOk] at h
-        exact (tokText_string raw h).lexTo
-      | block =>
-        simp only [valueOk] at h
-        exact (tokText_string raw h).lexTo
+      | string => exact (tokText_string_bytes raw).lexTo
+      | block => exact (tokText_string_bytes raw).lexTo
       | boolean =>
         simp only [valueOk] at h
         exact (tokText_name raw h).lexTo
